@@ -488,6 +488,23 @@ class CmdWorld(DBWorld):
     def setenv(self, eng, k, v):
         pass
 
+    # the command may run in a directory other than the one its .do file lives in (`cd sub && redo-ifcreate x`)
+    cmd_cwd = None
+
+    def current_dir(self, eng):
+        return ok(Vec(list(self.cmd_cwd or BASE), 'PathBuf'))
+
+    def rel(self, path):
+        items = tuple(deref_all(path).items)
+        if not all(isinstance(x, int) for x in items):
+            raise Unsupported('symbolic path in fs model')
+        b = bytes(items)
+        if not b.startswith(b'/'):
+            b = (self.cmd_cwd or BASE) + b'/' + b
+        if b.startswith(BASE + b'/'):
+            return tuple(b[len(BASE) + 1:])
+        return tuple(b)
+
 
 def install_cmd_stubs(eng, R, target=b'tgt', **envover):
     def env_ok(e, ci, a, sp):
@@ -522,7 +539,14 @@ def ifcreate_always_facts(chk):
         w.sym_file(1, ALWAYS, tag='always', fs_choices=(None,), stamp_choices=(None,), csum_choices=(None,),
                    fixed={'is_generated': None, 'is_override': None, 'checked_runid': None, 'failed_runid': None})
         w.sym_file(2, b'tgt')
-        w.fs[tuple(b'watched')] = LazyVal(lambda: [None, tuple(S1)][eng.choose(2, 'watched path exists')], 'watched')
+        # the script may have changed directory before calling the command: names are the caller's, relative to ITS cwd
+        sub = eng.choose(2, 'command runs in a subdirectory of the script directory') if which == 0 else 0
+        st['sub'] = sub
+        if sub:
+            w.cmd_cwd = BASE + b'/sub'
+            w.fs[tuple(b'sub')] = tuple(S_DIR)
+        w.fs[tuple(b'watched')] = LazyVal(lambda: [None, tuple(S1)][eng.choose(2, 'watched exists next to the script')], 'watched')
+        w.fs[tuple(b'sub/watched')] = LazyVal(lambda: [None, tuple(S1)][eng.choose(2, 'sub/watched exists')], 'sub/watched')
         install_cmd_stubs(eng, R)
         return eng.call('ifcreate::run' if which == 0 else 'always::run', [], None, None)
 
@@ -534,10 +558,12 @@ def ifcreate_always_facts(chk):
         committed = any(k == 'sql-commit' for k, d in w.log)
         bad = None
         if st['which'] == 0:
-            exists = w.fs_stamp(b'watched') is not None
+            wname = b'sub/watched' if st['sub'] else b'watched'
+            exists = w.fs_stamp(wname) is not None
             chk.goal('ifcreate: watched path exists', exists)
             chk.goal('ifcreate: watched path absent', not exists)
-            wid = [rid for rid, r in w.files.items() if tuple(r['name']) == tuple(b'watched')]
+            chk.goal('ifcreate: called from another directory than the script\'s', bool(st['sub']))
+            wid = [rid for rid, r in w.files.items() if tuple(r['name']) == tuple(wname)]
             edge = [d for (t, s), d in w.deps.items() if t == 2 and wid and s == wid[0]]
             if exists:
                 if val.var != 'Err':
@@ -564,9 +590,11 @@ def ifcreate_always_facts(chk):
                 bad = '//ALWAYS stamp is %r after redo-always (must be the "missing" stamp, else dependents are rebuilt more than once per run)' % (w.cell(1, 'stamp'),)
             chk.goal('always: reached')
         if bad:
-            c = {'role': 'ifcreate-always:' + bad.split(' ')[0], 'kind': 'none', 'what': bad, 'witness': {}}
+            c = {'role': 'ifcreate-always:' + bad.split(' ')[0], 'kind': 'none', 'what': bad, 'witness': {'sub': st.get('sub')}}
             if st['which'] == 1:
                 c.update(kind='scenario', files=orchestration.ALWAYS_FILES, script=orchestration.ALWAYS_SCRIPT, violated='always_more_than_once')
+            else:
+                c.update(kind='scenario', files=orchestration.IFCREATE_FILES, script=orchestration.IFCREATE_SCRIPT, violated='ifcreate_wrong_dir')
             return c
         return None
 
@@ -628,11 +656,28 @@ def stamp_facts(chk):
                 bad = 'changed digest: not marked changed in this run'
             elif row['csum'] is None or tuple(row['csum']) != tuple(st['digest']):
                 bad = 'changed digest: csum not replaced'
+        if not bad and row['failed_runid'] is not None:
+            # record_new_state leaves changed_runid / failed_runid to redo-stamp for a target that was stamped in this run;
+            # if the failure mark of an earlier run survives, the rebuilt target stays dirty and is rebuilt for every dependent
+            bad = 'failure mark: failed_runid is still %r after redo-stamp (the target can never become clean again)' % (row['failed_runid'],)
+        if not bad and not surely(eng, row['is_generated']):
+            bad = 'generated flag: the stamped target is not marked generated'
         if bad:
-            return {'role': 'stamp:' + bad.split(':')[0].replace(' ', '-'), 'kind': 'none', 'what': 'redo-stamp: ' + bad, 'witness': {}}
+            return {'role': 'stamp:' + bad.split(':')[0].replace(' ', '-'), 'kind': 'scenario', 'what': 'redo-stamp: ' + bad, 'witness': {},
+                    'files': orchestration.STAMP_FAIL_FILES, 'script': orchestration.STAMP_FAIL_SCRIPT, 'violated': 'stamped_target_stays_dirty'}
         return None
 
-    chk.explore('redo-stamp: changed vs checked marking', run, judge)
+    chk.explore('redo-stamp: changed vs checked marking, failure mark cleared', run, judge)
+
+
+def surely(eng, v):
+    if v is None:
+        return False
+    if isinstance(v, (bool, int)):
+        return bool(v)
+    if z3.is_bool(v):
+        return not eng.check(z3.Not(v))
+    return not eng.check(v == 0)
 
 
 def _install_print(eng):
